@@ -1363,6 +1363,8 @@ class XMLSchemaBase(XsdValidator, ElementPathMixin[Union[SchemaType, XsdElement]
 
                     # Clear identity constraints counters
                     for k, e in enumerate(xsd_ancestors[k:], start=k):
+                        if not isinstance(e, XsdElement):
+                            continue  # an ancestor matched by a wildcard
                         for identity in e.identities:
                             if identity in identities:
                                 identities[identity].reset(ancestors[k])
@@ -1397,7 +1399,10 @@ class XMLSchemaBase(XsdValidator, ElementPathMixin[Union[SchemaType, XsdElement]
 
         if context.identities is not identities:
             for identity, counter in context.identities.items():
-                identities[identity].counter.update(counter.counter)
+                if identity in identities:
+                    identities[identity].counter.update(counter.counter)
+                else:
+                    identities[identity] = counter
             context.identities = identities
 
         yield from self._validate_references(validation, context)
